@@ -7,6 +7,8 @@ def dispatch (line : String) : String :=
   | "parse" :: args => handleParse args
   | "toks" :: args => handleToks args
   | "meaning" :: args => handleMeaning args
+  | "parse2" :: args => handleParse2 args
+  | "meaning2" :: args => handleMeaning2 args
   | "fund" :: args => handleFund args
   | _ => "bad-op"
 
